@@ -176,6 +176,9 @@ def facts18(fname, fn, rel, defs, order):
             for c in kids[1:]:
                 visit(c)
             return
+        if k == "IfStmt" and kids and any(x.get("referencedDecl", {}).get("name") == "logLevel" or x.get("name") == "logLevel"
+                                        for x in cxxast.walk(kids[0])):
+            return            # a LOG_TRACE / LOG_DEBUG / LOG_INFO line (if (Logger::logLevel() <= ...) Logger(..).stream() << ..): no fact
         if k == "IfStmt":
             emit18(defs, order, "%s_if%d" % (fname, cnt["if"]), kids[0], "bool", "if (" + text_of(kids[0], rel) + ")")
             cnt["if"] += 1
